@@ -232,6 +232,21 @@ class Inst:
             return []
         return ('postsolve' if post else 'presolve'), kw, chk
 
+    def op_generic_rows(self, sign):
+        """a real-valued solver suffix on the rows only (all variable values 0, so the slack image of a range row is 0):
+        every matched linear constraint receives the value of its row, whatever its sign"""
+        val = lambda g, k: sign * (7.5 + k)
+        kw = dict(kind='GenericDbl', vars=vec([0] * self.nv), cons=self.cons_arg(val))
+        def chk(res):
+            p = []
+            ys = res['cons'].get('0', [])
+            if len(ys) != self.ncons_nl: p.append('generic dbl: con count %d != %d' % (len(ys), self.ncons_nl)); return p
+            for i, mt in self.match.items():
+                exp = val(CG_LINEAR, mt['row'])
+                if ys[i] != exp: p.append('real-valued row suffix of linear constraint wrong (%s, %s values): got %s expected %s' % (self.kind_of(i), 'negative' if sign < 0 else 'positive', ys[i], exp))
+            return p
+        return 'postsolve', kw, chk
+
 
 # ---------------------------------------------------------------------------------------------------
 # separable pairs: two constraints over disjoint variables.  Values given for one constraint must not
@@ -365,6 +380,8 @@ def work(job):
         ops['pre_lazy'] = I.op_pre_lazy()
         ops['post_generic_int'] = I.op_generic(True, False)
         ops['pre_generic_dbl'] = I.op_generic(False, True)
+        ops['post_generic_dbl_rows'] = I.op_generic_rows(1)
+        ops['post_generic_dbl_rows_neg'] = I.op_generic_rows(-1)
         # basis / IIS: every status vector over the matched rows and slacks (<= 3 items exhaustively)
         items = []
         for i, mt in sorted(I.match.items()):
